@@ -826,15 +826,27 @@ mod cat {
     }
     rounds_entries!(0, 1, 2, 3, 4, 5, 6, 7, 9, 10, 11, 13, 14, 15, 16, 17, 18, 19, 21, 22, 23, 24, 32, 40, 64);
 
-    /// process with output one shorter (a=0) / one longer (a=1) than the input, after a valid history
+    /// (input length, output length) of a mismatched buffer pair: output one shorter / one longer than the input,
+    /// EMPTY input with a non-empty output, non-empty input with an EMPTY output
+    fn mismatch(a: u64, n: usize) -> (usize, usize) {
+        match a {
+            0 => (n, n - 1),
+            1 => (n, n + 1),
+            2 => (0, 1),
+            _ => (1, 0),
+        }
+    }
+
+    /// process with mismatched buffer lengths (see `mismatch`), after a valid history
     macro_rules! process_mismatch {
         ($f:ident, $mk:expr) => {
             pub fn $f(a: u64, h: u64) -> Out {
                 let mut c = $mk;
                 let mut w = vec![0u8; warm(h)];
                 c.process_mut(&mut w);
-                let input = [0x33u8; 40];
-                let mut out = vec![0u8; if a == 0 { 39 } else { 41 }];
+                let (il, ol) = mismatch(a, 40);
+                let input = vec![0x33u8; il];
+                let mut out = vec![0u8; ol];
                 c.process(&input, &mut out);
                 ret("process accepted buffers of different sizes")
             }
@@ -852,29 +864,33 @@ mod cat {
         let mut e = c.to_encryption();
         let mut w = vec![0u8; warm(h / 3)];
         e.encrypt_mut(&mut w);
-        let mut out = vec![0u8; if a == 0 { 9 } else { 11 }];
-        e.encrypt(&[0u8; 10], &mut out);
+        let (il, ol) = mismatch(a, 10);
+        let mut out = vec![0u8; ol];
+        e.encrypt(&vec![0u8; il], &mut out);
         ret("ContextEncryption::encrypt accepted buffers of different sizes")
     }
     pub fn aead_decrypt_len(a: u64, h: u64) -> Out {
         let mut c = Context::<20>::new(&[1; 32], &[0; 12]);
         c.add_data(&vec![0u8; warm(h)]);
         let mut d = c.to_decryption();
-        let mut out = vec![0u8; if a == 0 { 9 } else { 11 }];
-        d.decrypt(&[0u8; 10], &mut out);
+        let (il, ol) = mismatch(a, 10);
+        let mut out = vec![0u8; ol];
+        d.decrypt(&vec![0u8; il], &mut out);
         ret("ContextDecryption::decrypt accepted buffers of different sizes")
     }
     pub fn aead_oneshot_encrypt_len(a: u64, h: u64) -> Out {
         let mut c = ChaChaPoly1305::<20>::new(&[1; 32], &[0; 12], &vec![0u8; warm(h)]);
-        let mut out = vec![0u8; if a == 0 { 9 } else { 11 }];
+        let (il, ol) = mismatch(a, 10);
+        let mut out = vec![0u8; ol];
         let mut tag = [0u8; 16];
-        c.encrypt(&[0u8; 10], &mut out, &mut tag);
+        c.encrypt(&vec![0u8; il], &mut out, &mut tag);
         ret("ChaChaPoly1305::encrypt accepted buffers of different sizes")
     }
     pub fn aead_oneshot_decrypt_len(a: u64, h: u64) -> Out {
         let mut c = ChaChaPoly1305::<20>::new(&[1; 32], &[0; 12], &vec![0u8; warm(h)]);
-        let mut out = vec![0u8; if a == 0 { 9 } else { 11 }];
-        let ok = c.decrypt(&[0u8; 10], &mut out, &[0u8; 16]);
+        let (il, ol) = mismatch(a, 10);
+        let mut out = vec![0u8; ol];
+        let ok = c.decrypt(&vec![0u8; il], &mut out, &[0u8; 16]);
         ret(&format!("ChaChaPoly1305::decrypt accepted buffers of different sizes (returned {})", ok))
     }
     pub fn aead_oneshot_tag_len(a: u64, h: u64) -> Out {
@@ -890,15 +906,17 @@ mod cat {
         let ok = c.decrypt(&[0u8; 10], &mut out, &vec![0u8; a as usize]);
         ret(&format!("ChaChaPoly1305::decrypt accepted a tag that is not 16 bytes (returned {})", ok))
     }
-    /// second use of a one-shot object: a = first op | second op << 1 (0 = encrypt, 1 = decrypt)
+    /// second use of a one-shot object: a = first op | second op << 1 (0 = encrypt, 1 = decrypt) | 4 if the FIRST use
+    /// carries an empty message (a completed use all the same)
     pub fn aead_oneshot_reuse(a: u64, h: u64) -> Out {
         let mut c = ChaChaPoly1305::<20>::new(&[1; 32], &[0; 12], &vec![0u8; warm(h)]);
         let mut out = [0u8; 10];
         let mut tag = [0u8; 16];
+        let first_len = if a & 4 != 0 { 0 } else { 10 };
         if a & 1 == 0 {
-            c.encrypt(&[0u8; 10], &mut out, &mut tag);
+            c.encrypt(&vec![0u8; first_len], &mut out[..first_len], &mut tag);
         } else {
-            let _ = c.decrypt(&[0u8; 10], &mut out, &tag);
+            let _ = c.decrypt(&vec![0u8; first_len], &mut out[..first_len], &tag);
         }
         // first use succeeded; the second one must be refused
         let second = std::panic::catch_unwind(std::panic::AssertUnwindSafe(|| {
@@ -1266,6 +1284,7 @@ mod cat {
 const KEYLENS: &[u64] = &[0, 1, 15, 17, 24, 31, 33, 64];
 const BADROUNDS: &[u64] = &[0, 1, 2, 3, 4, 5, 6, 7, 9, 10, 11, 13, 14, 15, 16, 17, 18, 19, 21, 22, 23, 24, 32, 40, 64];
 const TWO: &[u64] = &[0, 1];
+const FOUR: &[u64] = &[0, 1, 2, 3];
 const ONE: &[u64] = &[0];
 
 fn catalogue() -> Vec<Entry> {
@@ -1288,18 +1307,18 @@ fn catalogue() -> Vec<Entry> {
         e!("drg.rounds", cat::drg_rounds, BADROUNDS),
         e!("aead_context.rounds", cat::aead_rounds, BADROUNDS),
         e!("aead_oneshot.rounds", cat::aead_oneshot_rounds, BADROUNDS),
-        e!("chacha.process_length_mismatch", cat::chacha_process, TWO),
-        e!("xchacha.process_length_mismatch", cat::xchacha_process, TWO),
-        e!("chacha_original.process_length_mismatch", cat::chacha_orig_process, TWO),
-        e!("salsa.process_length_mismatch", cat::salsa_process, TWO),
-        e!("xsalsa.process_length_mismatch", cat::xsalsa_process, TWO),
-        e!("aead_context.encrypt_length_mismatch", cat::aead_encrypt_len, TWO),
-        e!("aead_context.decrypt_length_mismatch", cat::aead_decrypt_len, TWO),
-        e!("aead_oneshot.encrypt_length_mismatch", cat::aead_oneshot_encrypt_len, TWO),
-        e!("aead_oneshot.decrypt_length_mismatch", cat::aead_oneshot_decrypt_len, TWO),
+        e!("chacha.process_length_mismatch", cat::chacha_process, FOUR),
+        e!("xchacha.process_length_mismatch", cat::xchacha_process, FOUR),
+        e!("chacha_original.process_length_mismatch", cat::chacha_orig_process, FOUR),
+        e!("salsa.process_length_mismatch", cat::salsa_process, FOUR),
+        e!("xsalsa.process_length_mismatch", cat::xsalsa_process, FOUR),
+        e!("aead_context.encrypt_length_mismatch", cat::aead_encrypt_len, FOUR),
+        e!("aead_context.decrypt_length_mismatch", cat::aead_decrypt_len, FOUR),
+        e!("aead_oneshot.encrypt_length_mismatch", cat::aead_oneshot_encrypt_len, FOUR),
+        e!("aead_oneshot.decrypt_length_mismatch", cat::aead_oneshot_decrypt_len, FOUR),
         e!("aead_oneshot.encrypt_tag_length", cat::aead_oneshot_tag_len, &[0, 15, 17, 32]),
         e!("aead_oneshot.decrypt_tag_length", cat::aead_oneshot_decrypt_tag_len, &[0, 15, 17, 32]),
-        e!("aead_oneshot.reuse", cat::aead_oneshot_reuse, &[0, 1, 2, 3]),
+        e!("aead_oneshot.reuse", cat::aead_oneshot_reuse, &[0, 1, 2, 3, 4, 5, 6, 7]),
         e!("blake2b.dyn_output_length", cat::b2b_dyn_outlen, &[0, 65, 128]),
         e!("blake2s.dyn_output_length", cat::b2s_dyn_outlen, &[0, 33, 64]),
         e!("blake2b.bits", cat::b2b_bits, &[0, 513, 520, 1024]),
